@@ -228,7 +228,8 @@ def check(repo, rep):
     # make_silence formula (shared with C17)
     for l in cx.leaves('core', 'make_silence'):
         if l.outcome == 'return':
-            d = l.value[2][0] if l.value[0] == 'call' and l.value[2] else None
+            from ..facts import ctor_fields
+            d = ctor_fields(cx, l.value).get('data') if l.value[0] == 'call' else None
             nzero = P.prod(P.call('round', P.prod(P.param('duration'), P.role('sampling_rate'))), P.role('sample_width'), P.role('channels'))
             ok = d is not None and (P.prod(P.const(b'\x00'), nzero)(d) or P.call('bytes', nzero)(d) or P.call('bytearray', nzero)(d))
             rep.ob('make_silence(d) = round(d * rate) all-zero samples', ok, cx.where('core', l.node), 'make_silence:data', 'data is %s' % (show(d)[:120] if d else None))
